@@ -376,7 +376,9 @@ func (p *Parser) parseHexString() (core.Object, error) {
 		c2 := p.data[p.pos]
 		if isWhitespace(c2) {
 			// Skip whitespace between hex digits
-			p.skipWhitespace()
+			for p.pos < len(p.data) && isWhitespace(p.data[p.pos]) {
+				p.pos++
+			}
 			if p.pos >= len(p.data) || p.data[p.pos] == '>' {
 				result.WriteByte(hexValue(c) << 4)
 				p.pos++ // consume '>'
@@ -511,9 +513,20 @@ func (p *Parser) parseDict() (core.Object, error) {
 	return dict, nil
 }
 
-// skipWhitespace advances past PDF whitespace characters.
+// skipWhitespace advances past PDF whitespace characters and comments
+// (a comment runs from '%' to the end of the line and counts as white space).
 func (p *Parser) skipWhitespace() {
-	for p.pos < len(p.data) && isWhitespace(p.data[p.pos]) {
+	for p.pos < len(p.data) {
+		c := p.data[p.pos]
+		if c == '%' {
+			for p.pos < len(p.data) && p.data[p.pos] != '\r' && p.data[p.pos] != '\n' {
+				p.pos++
+			}
+			continue
+		}
+		if !isWhitespace(c) {
+			return
+		}
 		p.pos++
 	}
 }
